@@ -353,12 +353,12 @@ pub fn history(ctx: &mut Ctx, start: &MPos, plies: usize) {
 }
 
 pub fn run(ctx: &mut Ctx) {
-    let n = ctx.budget(12_000, 600_000);
+    let n = ctx.budget(150_000, 2_000_000);
     let mut src = Sources::standard(n);
     src.three_man = n / 20;
     stream::run(ctx, &src, &mut check_pos);
     let starts = crate::gen::fixed_positions();
-    let games = ctx.budget(3_000, 150_000);
+    let games = ctx.budget(40_000, 500_000);
     for i in 0..games {
         let mut s = if i % 3 == 0 { starts[0].clone() } else { ctx.rng.pick(&starts).clone() };
         if ctx.rng.chance(1, 5) {
